@@ -79,7 +79,7 @@ ValStr(v) == IF v.t = "s" THEN Str(v.cp) ELSE IF v.t = "sym" THEN v.s ELSE ""
 ----------------------------------------------------------------------------
 (* Structured paths.  A step is [k, s, x, i]:                              *)
 (*   root s=type | field s=name | index i | where s=child x=literal        *)
-(*   first | last | ext x=url | value | concat x | count                   *)
+(*   first | last | ext x=url | value | concat x | count | skip i | take i *)
 
 RenderStep(st, isFirst) ==
   CASE st.k = "root"   -> st.s
@@ -92,6 +92,8 @@ RenderStep(st, isFirst) ==
     [] st.k = "value"  -> ".value"
     [] st.k = "concat" -> " & '" \o st.x \o "'"
     [] st.k = "count"  -> ".count()"
+    [] st.k = "skip"   -> ".skip(" \o ToString(st.i) \o ")"
+    [] st.k = "take"   -> ".take(" \o ToString(st.i) \o ")"
     [] OTHER           -> "?"
 
 RECURSIVE RenderFrom(_, _)
@@ -140,6 +142,10 @@ StepNav(t, sch, cur, st) ==
       [] st.k = "index" -> IF st.i >= 0 /\ st.i < Len(f) THEN NR("nodes", <<f[st.i + 1]>>) ELSE NR("nodes", <<>>)
       [] st.k = "first" -> IF Len(f) > 0 THEN NR("nodes", <<f[1]>>) ELSE cur
       [] st.k = "last"  -> IF Len(f) > 0 THEN NR("nodes", <<f[Len(f)]>>) ELSE cur
+      [] st.k = "skip"  -> IF st.i <= 0 THEN cur ELSE IF st.i >= Len(f) THEN NR("nodes", <<>>)
+                           ELSE NR("nodes", SubSeq(f, st.i + 1, Len(f)))
+      [] st.k = "take"  -> IF st.i <= 0 THEN NR("nodes", <<>>)
+                           ELSE NR("nodes", SubSeq(f, 1, IF st.i < Len(f) THEN st.i ELSE Len(f)))
       [] st.k = "where" ->
            NR("nodes", SelectSeq(f, LAMBDA a :
               LET ks == Kids(t, a, st.s)
